@@ -117,7 +117,8 @@ RESERVED = {"end": "end_", "at": "at_", "in": "in_", "fun": "fun_", "match": "ma
             "rev": "rev_", "filter": "filter_", "map": "map_", "length": "length_", "app": "app_",
             "nat": "nat_", "list": "list_", "option": "option_", "bool": "bool_", "unit": "unit_",
             "fst": "fst_", "snd": "snd_", "negb": "negb_", "true": "true_", "false": "false_", "tt": "tt_",
-            "Some": "Some_", "None": "None_", "nil": "nil_", "cons": "cons_", "Z": "Z_", "N": "N_"}
+            "Some": "Some_", "None": "None_", "nil": "nil_", "cons": "cons_", "Z": "Z_", "N": "N_",
+            "step": "step_", "bound": "bound_", "slice": "slice_", "fetch": "fetch_", "key": "key_"}
 
 # globals the generated text may mention (besides what a spec names): never bindable by a Python local
 EMITTED = {"out1_", "v_", "it_", "oivld", "sub_while", "run_for_o", "run_while", "iter_for", "iter_while", "SCont", "SBrk", "SRet", "Cont", "Brk", "Ret", "RDone", "RRaise",
@@ -126,7 +127,8 @@ EMITTED = {"out1_", "v_", "it_", "oivld", "sub_while", "run_for_o", "run_while",
            "Daily", "Weekly", "Monthly", "Yearly", "sl_add", "sl_remove", "fetch_static", "cov_add", "cov_remove",
            "heap_push", "ivl", "ctl", "step", "exn",
            "res_bind", "sub_for", "py_set_index", "list_set_nat", "any_mut", "any_mut_at", "py_max", "py_min",
-           "py_enumerate", "fs_of_list", "fs_insert", "forallb", "existsb", "combine", "r_", "m_", "b_"}
+           "py_enumerate", "fs_of_list", "fs_insert", "forallb", "existsb", "combine", "r_", "m_", "b_",
+           "opt_eqb", "dict_set", "dict_of", "dict_get", "dict_has", "keys_inter", "N_plus_Z", "x_"}
 
 COQ_TYPE = {"Z": "Z", "OZ": "option Z", "B": "bool", "IVL": "ivl", "OIVL": "option ivl",
             "LIST": "list ivl", "U": "unit", "FS": "list Z"}
@@ -218,6 +220,11 @@ class Tr:
         self.uses_fuel = False
         # sum types: type -> dict(coq, ctors=[(constructor, [(field, type)])],
         #                         exprs={constructor: {source text with {x}: (coq text with field names, type)}})
+        # dicts: type -> dict(key=type, val=type, eqb=coq text of == on keys)
+        self.dicts = spec.get("dicts", {})
+        for dn, dd in self.dicts.items():
+            self.types[dn] = f"list ({self.coq_type(dd['key'])} * {self.coq_type(dd['val'])})"
+        self.with_ok = set(spec.get("with_ok", []))
         self.sums = spec.get("sums", {})
         for stn, sd in self.sums.items():
             self.types[stn] = sd["coq"]
@@ -502,6 +509,39 @@ class Tr:
             if isinstance(e.op, ast.USub):
                 return f"(- {self.expr(e.operand, env, 'Z')[0]})", "Z"
             raise Unsupported("unary operator")
+        if isinstance(e, ast.BinOp) and isinstance(e.op, ast.BitAnd):
+            # d1.keys() & d2.keys()
+            ds = []
+            for side in (e.left, e.right):
+                if not (isinstance(side, ast.Call) and isinstance(side.func, ast.Attribute) and side.func.attr == "keys"
+                        and not side.args and not side.keywords):
+                    raise Unsupported("binary operator &")
+                ds.append(self.expr0(side.func.value, env))
+            (a, ta), (b, tb) = ds
+            if ta not in self.dicts or tb not in self.dicts or self.dicts[ta]["key"] != self.dicts[tb]["key"] or \
+                    self.dicts[ta]["eqb"] != self.dicts[tb]["eqb"]:
+                raise Unsupported(f"keys() & keys() of {ta} and {tb}")
+            return f"(keys_inter {self.dicts[ta]['eqb']} {a} {b})", "L:" + self.dicts[ta]["key"]
+        if isinstance(e, ast.DictComp):
+            if len(e.generators) != 1 or e.generators[0].ifs or e.generators[0].is_async or \
+                    not isinstance(e.generators[0].target, ast.Name):
+                raise Unsupported("dict comprehension shape")
+            g = e.generators[0]
+            src, sty = self.expr0(g.iter, env)
+            if not self.is_list(sty):
+                raise Unsupported(f"comprehension over {sty}")
+            inner = self.bind(env, g.target.id, self.item_of(sty))
+            x = cname(g.target.id)
+            self.cond_depth += 1
+            try:
+                k, kty = self.expr0(e.key, inner)
+                v, vty = self.expr0(e.value, inner)
+            finally:
+                self.cond_depth -= 1
+            for dn, dd in self.dicts.items():
+                if dd["key"] == kty and dd["val"] == vty:
+                    return f"(dict_of {dd['eqb']} (fun {x} => {k}) (fun {x} => {v}) {src})", dn
+            raise Unsupported(f"no declared dict type for keys {kty} and values {vty}")
         if isinstance(e, ast.BinOp):
             sym = {ast.Add: "+", ast.Sub: "-", ast.Mult: "*", ast.FloorDiv: "/", ast.Mod: "mod"}
             if type(e.op) not in sym:
@@ -520,6 +560,11 @@ class Tr:
         if isinstance(e, ast.List) and e.elts:
             ts = [self.expr(x, env, "Z")[0] for x in e.elts]
             return "[" + "; ".join(ts) + "]", "L:Z"
+        if isinstance(e, ast.Tuple) and e.elts and want in self.tuples:
+            comps = self.tuples[want]
+            if len(comps) != len(e.elts):
+                raise Unsupported(f"tuple of {len(e.elts)} components used as {want}")
+            return "(" + ", ".join(self.expr(x, env, t)[0] for x, t in zip(e.elts, comps)) + ")", want
         if isinstance(e, ast.Tuple) and not e.elts and want is not None and self.is_list(want):
             return f"(@nil {self.coq_type(self.item_of(want))})", want      # `return ()`: an empty iterable
         if isinstance(e, ast.List) and not e.elts:
@@ -528,6 +573,12 @@ class Tr:
             raise Unsupported("empty list of unknown type (annotate it)")
         if isinstance(e, ast.Subscript):
             xs, xty = self.expr0(e.value, env)
+            if xty in self.dicts:
+                dd = self.dicts[xty]
+                if dd["val"] not in self.defaults:
+                    raise Unsupported(f"subscript of a dict of {dd['val']}")
+                k, _ = self.expr(e.slice, env, dd["key"])
+                return f"(dict_get {dd['eqb']} {self.defaults[dd['val']]} {k} {xs})", dd["val"]
             if xty in self.tuples:
                 comps = self.tuples[xty]
                 if not (isinstance(e.slice, ast.Constant) and isinstance(e.slice.value, int)
@@ -707,6 +758,12 @@ class Tr:
             args = args + [kws.pop("reverse", ast.Constant(False))]
         if len(args) != len(argtys):
             raise Unsupported(f"arity of {fn}")
+        # STRLIT: an argument that must be a string literal and only feeds a message: dropped
+        for a, t in zip(args, argtys):
+            if t == "STRLIT" and not (isinstance(a, ast.Constant) and isinstance(a.value, str)):
+                raise Unsupported(f"argument of {fn} is not a string literal")
+        args = [a for a, t in zip(args, argtys) if t != "STRLIT"]
+        argtys = [t for t in argtys if t != "STRLIT"]
         if set(kws) != set(fixed) | {n for n, _ in kwt}:
             raise Unsupported(f"keyword arguments of {fn}")
         for key, text in fixed.items():
@@ -995,6 +1052,8 @@ class Tr:
         fn = ast.unparse(c.func)
         if fn in self.effects:
             ef = self.effects[fn]
+            if ef.get("vars"):
+                return "@" + ef["vars"][0], c, ef
             return ("@" + ef["var"]) if ef.get("var") else None, c, ef
         if isinstance(c.func, ast.Attribute) and c.func.attr == "append" and isinstance(c.func.value, ast.Name):
             return c.func.value.id, c, "append"
@@ -1076,8 +1135,9 @@ class Tr:
                 ef = self.effect_of(sub)
                 if ef is not None and ef[0] is not None:
                     add(ef[0])
-                    if isinstance(ef[2], dict) and ef[2].get("result_var"):
-                        pass
+                    if isinstance(ef[2], dict) and ef[2].get("vars"):
+                        for v in ef[2]["vars"]:
+                            add("@" + v)
         return out
 
     def is_pure(self, s):
@@ -1089,8 +1149,10 @@ class Tr:
             if isinstance(s.value, ast.Call) and isinstance(s.value.func, ast.Name) and \
                     s.value.func.id in self.closures and not s.value.args and not s.value.keywords:
                 return all(self.is_pure(x) for x in self.closures[s.value.func.id])
-            return (isinstance(s.value, ast.Constant) and isinstance(s.value.value, str)) or \
-                self.effect_of(s) is not None
+            ef = self.effect_of(s)
+            if ef is not None and isinstance(ef[2], dict) and ef[2].get("res"):
+                return False
+            return (isinstance(s.value, ast.Constant) and isinstance(s.value.value, str)) or ef is not None
         if isinstance(s, ast.If):
             if ast.unparse(s.test) in self.skip_tests:
                 return False
@@ -1247,6 +1309,13 @@ class Tr:
             return self.block(rest, env, fin, ind)           # docstring
         if isinstance(s, ast.Pass):
             return self.block(rest, env, fin, ind)
+        if isinstance(s, ast.With):
+            if not all(ast.unparse(it.context_expr) in self.with_ok and it.optional_vars is None for it in s.items):
+                raise Unsupported("with")
+            if self.loop_depth or any(isinstance(x, (ast.Yield, ast.YieldFrom, ast.Return)) for b in s.body
+                                      for x in ast.walk(b)):
+                raise Unsupported("with inside a loop, or a yield / return inside with")
+            return self.block(list(s.body) + rest, env, fin, ind)
         if self.sums:
             x = self.needs_match(s, env)
             if x is not None:
@@ -1342,14 +1411,14 @@ class Tr:
                 return self.join_if(s, rest, env, fin, ind)
             return self.block(list(self.closures[s.value.func.id]) + rest, env, fin, ind)
         if isinstance(s, ast.Expr) and isinstance(s.value, ast.Yield):
-            if self.kind != "gen" or s.value.value is None:
+            if not self.may_yield() or s.value.value is None:
                 raise Unsupported("yield")
             t, _ = self.expr(s.value.value, env, self.yield_type)
             env2 = dict(env)
             env2["$y"] = True
             return f"{pad}let out := out ++ [{t}] in\n" + self.block(rest, env2, fin, ind)
         if isinstance(s, ast.Expr) and isinstance(s.value, ast.YieldFrom):
-            if self.kind != "gen":
+            if not self.may_yield():
                 raise Unsupported("yield from")
             t, _ = self.expr(s.value.value, env, "LIST" if self.yield_type == "IVL" else "L:" + self.yield_type)
             env2 = dict(env)
@@ -1365,16 +1434,34 @@ class Tr:
                     raise Unsupported(f"statement {ast.unparse(s)[:80]}")
                 x, _ = self.expr(c.args[0], env, self.item_of(env[key]))
                 return self.assign(key, f"({cname(key)} ++ [{x}])", env[key], env, pad, rest, fin, ind)
-            if c.keywords or len(c.args) != len(how.get("args", [])):
+            kwmap = how.get("kwmap", {})          # keyword -> {source text of the value: coq text}
+            kws = {k.arg: ast.unparse(k.value) for k in c.keywords}
+            if set(kws) != set(kwmap) or len(kws) != len(c.keywords) or len(c.args) != len(how.get("args", [])) or \
+                    any(kws[k] not in kwmap[k] for k in kws):
                 raise Unsupported(f"call shape of {ast.unparse(c.func)}")
+            kwt = {k: kwmap[k][kws[k]] for k in kws}
             if how.get("raises") and how.get("must_try") and not self.in_try:
                 raise Unsupported(f"{ast.unparse(c.func)} may raise: only inside try")
             self.in_try = False
             ts = [self.expr(a, env, t)[0] for a, t in zip(c.args, how["args"])]     # (type-checked even if unused)
+            if how.get("vars"):
+                # an effect on several state variables: the update gives their tuple (a res of it with res=True)
+                vs = how["vars"]
+                if any("@" + v not in env for v in vs):
+                    raise Unsupported(f"{ast.unparse(c.func)} updates a variable that is not a state variable")
+                if how.get("fuel"):
+                    self.uses_fuel = True
+                text = how["update"].format(*ts, **kwt)
+                pat = "'(" + ", ".join(vs) + ")"
+                if how.get("res"):
+                    if not self.res or self.plain or self.loop_depth:
+                        raise Unsupported(f"{ast.unparse(c.func)} returns a res: only outside loops, in a res function")
+                    return f"{pad}res_bind {text} (fun {pat} =>\n" + self.block(rest, env, fin, ind) + ")"
+                return f"{pad}let {pat} := {text} in\n" + self.block(rest, env, fin, ind)
             if key is None:
                 # a call the spec declares to have no effect on the modelled state (it may only raise)
                 return self.block(rest, env, fin, ind)
-            text = how["update"].format(*ts, var=cname(key))
+            text = how["update"].format(*ts, var=cname(key), **kwt)
             return self.assign(key, text, self.genparams[key[1:]], env, pad, rest, fin, ind)
         if isinstance(s, ast.Continue):
             return pad + fin(env, "continue")
@@ -1466,6 +1553,10 @@ class Tr:
             pat = " ".join([ctor] + [f"{cname(x)}_{f}" for f, _ in fields])
             arms.append(f"{pad}| {pat} =>\n" + self.block(stmts, env2, fin, ind + 1))
         return f"{pad}match {cname(x)} with\n" + "\n".join(arms) + f"\n{pad}end"
+
+    def may_yield(self):
+        """a generator; or a procedure that also yields (spec "yields"), outside its loops"""
+        return self.kind == "gen" or (self.kind == "proc" and self.spec.get("yields") and not self.loop_depth)
 
     def pop_assign(self, s, rest, env, fin, ind):
         """x = pop(container) / a, b, c = pop(container): the value the spec gives, then the update of the
@@ -1968,6 +2059,9 @@ class Tr:
         name = spec["name"]
         for s in body:
             for sub in ast.walk(s):
+                if isinstance(sub, ast.With) and all(ast.unparse(it.context_expr) in self.with_ok and
+                                                     it.optional_vars is None for it in sub.items):
+                    continue        # `with self._lock:` — the lock discipline is tie B's subject (C11)
                 if isinstance(sub, (ast.With, ast.AsyncFunctionDef, ast.ClassDef, ast.Global,
                                     ast.Delete, ast.Await, ast.NamedExpr)):
                     raise Unsupported(f"construct {type(sub).__name__}")
@@ -2066,11 +2160,13 @@ class Tr:
             if not self.state:
                 raise Unsupported("a proc needs state variables")
             tup = " * ".join(self.coq_type(self.genparams[v]) for v in self.state)
+            if spec.get("yields"):
+                tup += f" * list {self.out_type}"
             tup = f"({tup})" if (" " in tup) else tup
 
             def fin(e2, k, v=None):
                 if k in ("end", "return"):
-                    items = [v2 for v2 in self.state]
+                    items = [v2 for v2 in self.state] + (["out"] if spec.get("yields") else [])
                     return wrap(items[0] if len(items) == 1 else "(" + ", ".join(items) + ")")
                 if k == "raise":
                     return raise_text(e2, v)
@@ -2078,7 +2174,8 @@ class Tr:
             text = self.block(body, env, fin, 1)
             add_fuel()
             full = f"res {tup}" if self.res else tup
-            return f"Definition {name} {' '.join(params)} : {full} :=\n{text}.\n"
+            head = f"  let out := @nil {self.out_type} in\n" if spec.get("yields") else ""
+            return f"Definition {name} {' '.join(params)} : {full} :=\n{head}{text}.\n"
         # generator
         out_list = f"list {self.out_type}"
 
@@ -2179,6 +2276,10 @@ def translate_all(repo: Path, specs, header=HEADER):
             if path not in trees:
                 trees[path] = ast.parse(path.read_text())
             fdef = find_function(trees[path], spec.get("cls"), spec["func"])
+            for line in spec.get("file_has", []):
+                # a module-level statement the spec's reading of a name depends on (e.g. an import)
+                if not any(ast.unparse(n) == line for n in trees[path].body):
+                    raise Unsupported(f"the module does not say `{line}`")
             tr = Tr(spec, known)
             tr.classdef = find_class(trees[path], spec["cls"]) if spec.get("cls") else None
             for d in fdef.decorator_list:
